@@ -33,6 +33,7 @@ def configs(ctx):
     add('1d-p2-n3-inf')
     add('1d-p2-n4-d1', N1=4, Disp=1, MarkCap=2)
     add('1d-p1-n2-L4-d1', P1=1, N1=2, MaxLev=4, Disp=1, MaxCalls=3, MarkCap=1)
+    add('1d-p1-n5-inf', P1=1, N1=5, MarkCap=1)     # interior single cells: refinements that only ACTIVATE functions
     add('2d-p12-2x2-inf', D=2, P1=1, P2=2, N1=2, N2=2, MarkCap=1, workers=4)
     if ctx.thorough:
         add('1d-p3-n3-inf-c3', P1=3, MaxCalls=3, MarkCap=2, workers=4)
@@ -87,10 +88,13 @@ def check_state(ctx, name, consts, ref, rp, by_hist):
     marks = [c['marks'] for c in hist]
     key = json.dumps(marks)
     sig = 'config=%s marks=%s' % (name, key)
-    hs, _, err = hs_util.replay_history(consts, hist, truncflag=consts['TruncMark'])
+    probed = len(key) % 2 == 1     # half of the histories with read-only queries between the refine() calls
+    hs, _, err = hs_util.replay_history(consts, hist, truncflag=consts['TruncMark'], probes=probed)
     if err is not None:
         ctx.skip('refine raised (reported by C04)')
         return
+    if probed:
+        hs_util.probe(hs)
     F = [(l, tuple(x)) for l, x in hs.active_functions(flat=True)]
     if F != [(e['l'], tuple(e['x'])) for e in rp['canonF']]:
         ctx.skip('admissible closure differs from the model')
@@ -155,10 +159,28 @@ def check_state(ctx, name, consts, ref, rp, by_hist):
             ctx.violation('virtual_hierarchy_prolongators truncate=%s numlevels%s3' % (trunc, '>=' if Lc >= 3 else '<'),
                           {'config': name, 'marks_per_call': marks, 'what': bad})
 
+    hs_fine = hs
     # (iii) prolongate_to from the parent state (history without the last call)
     parent = by_hist.get(json.dumps(marks[:-1])) if len(marks) >= 2 else 'init'
     if parent is not None:
-        hc, _, err = hs_util.replay_history(consts, hist[:-1], truncflag=consts['TruncMark'])
+        hc, _, err = hs_util.replay_history(consts, hist[:-1], truncflag=consts['TruncMark'], probes=probed)
+        if err is None and probed:
+            # the documented idiom: query the coarse space, then fine = coarse.copy(); fine.refine(marks)
+            hs_util.probe(hc)
+            try:
+                fine = hc.copy()
+                m = hs_util.render_marks(hist[-1], 'set', fine)
+                fine.refine(m, truncate=True) if consts['TruncMark'] else fine.refine(m)
+                if hs_util.project(fine) == hs_util.project(hs):
+                    hs_fine = fine
+                else:
+                    ctx.violation('copy-then-refine differs from direct history %s' % sig, {})
+                    hs_fine = hs
+            except Exception as ex:
+                ctx.violation('exception %s in copy-then-refine %s' % (type(ex).__name__, sig), {'error': repr(ex)})
+                hs_fine = hs
+        else:
+            hs_fine = hs
         if err is None:
             if parent == 'init':
                 Hc = np.eye(int(np.prod(ref.nf[0])))
@@ -169,7 +191,7 @@ def check_state(ctx, name, consts, ref, rp, by_hist):
                 Hc = dense(parent['hb'], parent['nfine'], len(Fp)) if okp else None
             if okp:
                 try:
-                    P = hc.prolongate_to(hs).toarray()
+                    P = hc.prolongate_to(hs_fine).toarray()
                     lhs = H @ P
                     rhs = ref.tp(hc.numlevels - 1, Lc - 1) @ Hc
                     if P.shape != (n, Hc.shape[1]) or abs(lhs - rhs).max() > 1e-11:
@@ -179,6 +201,35 @@ def check_state(ctx, name, consts, ref, rp, by_hist):
                 except Exception as ex:
                     ctx.violation('exception %s in prolongate_to %s' % (type(ex).__name__, sig), {'error': repr(ex)})
 
+    # (iii') the two calls in the other order (one history per reachable state is emitted, so the reverse order of a
+    # commuting pair is otherwise never replayed): same space, and prolongate_to from the other intermediate space
+    if len(marks) == 2 and consts['Disp'] == 0 and all(not lv for lv in marks[1][1:]) and all(not lv for lv in marks[0][1:]):
+        parent2 = by_hist.get(json.dumps([marks[1]]))
+        if parent2 is not None:
+            try:
+                hc2, _, err2 = hs_util.replay_history(consts, [hist[1]], probes=True)
+                hs_util.probe(hc2)
+                fine2 = hc2.copy()
+                fine2.refine(hs_util.render_marks(hist[0], 'set', fine2))
+                Fp = [(l, tuple(x)) for l, x in hc2.active_functions(flat=True)]
+                if err2 is None and hs_util.project(fine2) == hs_util.project(hs_fine) and \
+                        Fp == [(e['l'], tuple(e['x'])) for e in parent2['canonF']]:
+                    Hc2 = dense(parent2['hb'], parent2['nfine'], len(Fp))
+                    P = hc2.prolongate_to(fine2).toarray()
+                    lhs = H @ P
+                    rhs = ref.tp(hc2.numlevels - 1, Lc - 1) @ Hc2
+                    if P.shape != (n, Hc2.shape[1]) or abs(lhs - rhs).max() > 1e-11:
+                        ctx.violation('prolongate_to disparity=inf after-queries reversed-order',
+                                      {'config': name, 'marks_per_call': [marks[1], marks[0]],
+                                       'maxdiff': float(abs(lhs - rhs).max()) if lhs.shape == rhs.shape else 'shape'})
+                    if probed:
+                        hs_fine = fine2
+                elif err2 is None and hs_util.project(fine2) != hs_util.project(hs_fine):
+                    ctx.violation('refinement-not-commutative ' + sig, {})
+            except Exception as ex:
+                ctx.violation('exception %s in reversed-order prolongate_to %s' % (type(ex).__name__, sig), {'error': repr(ex)})
+
+    hs = hs_fine        # (probed histories: the copy()-then-refine object, with whatever tables it inherited)
     # (iv) HSplineFunc evaluation vs. the tensor-product spline with coefficients Repr * u
     rng = np.random.RandomState(ctx.seed + n)
     u = rng.randint(-3, 4, size=n).astype(float)
